@@ -115,6 +115,14 @@ CLAIMED["C09"] = {
     "technique": "unsafe-site census over the instance call graph + imported premise sets + iterator transition terms + niche census with an assumption table",
 }
 
+CLAIMED["C04"] = {
+    "category": "other",
+    "text": "Selection: all 18 direct typed getters are get_tag::<T>() with T::ID the variant of the kind's specified number; the polymorphic get_tag is tags().find(numeric type equality).map(cast::<T>) (first match by Iterator::find over C03's walk) and each of the 20 instantiated predicates compares with its kind; the EFI-map withholding and the framebuffer error propagation wrappers term by term. Decoding: compiler layouts of all 22 tag structs, MemoryArea, FramebufferColor, VBEControlInfo/VBEModeInfo/VBEField against hand-written specification tables; the return term of every public accessor resolved to (offset, width) and compared with an accessor table; compound accessors (RSDP checksum range and fold, RSDP strings, module size, area end, little-endian Reader, RGB read order, palette) matched structurally; plain accessors have no panic edge.",
+    "design_ref": "DESIGN.md §4 C04",
+    "note": TB + "; imports C03, C15, C20; the two repr(Rust) tuples inside VBEModeInfo (resolution, character_size) are toolchain-dependent and not claimed; iterator decoders are C18/C19, strings C17",
+    "technique": "layout tables + accessor read-sets (return term -> offset/width) + getter/ID tables + structural term matching of compound decoders",
+}
+
 PENDING = "check not yet built in this session (machinery under construction; see DESIGN.md §9 build order) - not claimed until its premises run, pass on the repaired tree and fire on seeded breaks"
 NOT_APPLICABLE = {("C%02d" % i): PENDING for i in range(1, 21)}
 
